@@ -15,17 +15,35 @@ max(K, send_interval) + tau, nobody times out, nobody is DROPPED; after the cut 
 timedout(T) turns true at the first sweep with now - last_recv >= T and not before, the client reports DROPPED
 at the first update later than last_recv + 5 s and not before; unanswered connect — DISCONNECTED at the first
 update later than the configured time-out, callback exactly once with False; setters never raise and the
-connection carries the values set last."""
+connection carries the values set last.
+Two-endpoint composition (Model/TimedNet.v, theorems C12_idle_pair_*):
+  * idle_pair_run (1210): joint timed schedules (harness/idlesim.py) of an established idle pair — both real
+    endpoints under one virtual clock, the server loop's sweep rule applied as server.py does, datagrams
+    delayed up to d, duplicated, reordered, tampered copies mixed in — replayed on the joint model and
+    compared observation by observation (statuses, removed flag, liveness clocks, emission counts, sequence
+    counters, window heads) together with the model's verdict on the theorems' hypotheses.
+  Oracle: whenever max(K,si)+tau+d < T (server) and <= 5 s (client) and the schedule is admissible (recomputed
+  in Python), nobody times out and per direction consecutive datagrams are at most max(K,si)+tau apart; the
+  exactness witnesses of the Coq file (max(K,si)+tau+d = T over a perfect network) are replayed on the real
+  endpoints and reported as the known limitation of the property's "keep-alive < timeout" quantifier."""
 import types
-from harness import lib, netsim, connsim as S
+from harness import lib, netsim, idlesim, connsim as S
 
 RULE = ("setter/connect/update sequences (all orders, lengths 1..8); idle+cut sessions on a grid of keep-alive "
         "interval x tick x time-out (exact binary fractions); non-trivial = sequence with a setter both before and after "
-        "connect / session idle for >= 10 keep-alive periods then cut")
+        "connect / session idle for >= 10 keep-alive periods then cut; joint timed schedules of the idle pair (random tick gaps "
+        "<= tau, delays <= d, copies, tampered copies) on a grid incl. the tightest T, plus the scripted exactness witnesses")
 ASSUMPTIONS = ["time values are multiples of 1/1024 s (exact in binary floating point), so every float comparison in the code "
                "has the truth value of the model's integer comparison",
-               "real clocks / thread scheduling are not modelled: update() calls are the harness's ticks"]
-TRUSTED = ["harness/connsim.py + netsim.py virtual clock (mpgameserver.connection.time replaced by a shim)"]
+               "real clocks / thread scheduling are not modelled: update() calls are the harness's ticks",
+               "two-endpoint theorems: the network shows every datagram to the peer within d of its emission (further copies only "
+               "within `life`; anything else offered does not open under the session key; no bytes with an unparsable header), both "
+               "sides call update() at least every tau, fewer than half the sequence ring alive (life <= 32766 * (max(K, si) + 1)), "
+               "and the pair starts established with nothing in flight"]
+TRUSTED = ["harness/connsim.py + netsim.py virtual clock (mpgameserver.connection.time replaced by a shim)",
+           "harness/idlesim.py applies the server loop's sweep to one connection itself (DISCONNECTING -> disconnect(); removed when "
+           "DISCONNECTED or ConnectionBase.timedout(connection_timeout); update() either way) instead of running UdpServerThread; "
+           "Coq: C12_server_sweep_is_the_server_loop relates the same step to the server-loop model of C10/C11"]
 
 T = S.TICKS
 
@@ -269,6 +287,128 @@ def connect_timeout_case(run, rng, tt, with_cb, tau):
     return 1
 
 
+# ---------------------------------------------------------------- the two endpoints together
+
+def idle_pair_compare(run, p, tau, d, life, label, cases, impl, margs):
+    ok_params = idlesim.params_ok(p.KC, p.KS, tau, d, p.Tconn, life)
+    adm, why = p.admissible(tau, d, life)
+    cases.append({"session": label, "KC": p.KC, "KS": p.KS, "tau": tau, "d": d, "life": life, "T": p.Tconn, "events": len(p.events),
+                  "admissible": adm, "why": why})
+    impl.append([1, 1 if ok_params else 0, 1 if adm else 0, p.obs])
+    margs.append(p.model_args(tau, d, life))
+    return ok_params, adm
+
+
+def idle_pair_oracle(run, p, tau, d, label):
+    """implementation only: inside the bound nobody times out and keep-alives keep their cadence"""
+    bad = [i for i, st in enumerate(p.statuses) if st != (2, 2, False)]
+    if bad:
+        i = bad[0]
+        run.oracle_violation("idle-pair-timed-out", {"session": label, "KC": p.KC, "KS": p.KS, "tau": tau, "d": d, "T": p.Tconn,
+                                                     "event": i, "at": p.events[i][1] - p.t0, "statuses": list(p.statuses[i])},
+                             "keepalive/timeout, two endpoints")
+    for who, K in (("client", p.KC), ("server", p.KS)):
+        bound = max(K, idlesim.SI) + tau
+        ts = [p.t0 - max(K, idlesim.SI)] + [r["time"] for r in p.em[who]] + [p.times[-1]]
+        gaps = [b - a for a, b in zip(ts, ts[1:])]
+        if max(gaps) > bound:
+            run.oracle_violation("keepalive-gap-too-long", {"session": label, "who": who, "gap": max(gaps), "bound": bound,
+                                                            "K": K, "tau": tau, "d": d}, "keepalive/timeout, two endpoints")
+
+
+def check_idle_pairs(run, rng, th):
+    cases, impl, margs = [], [], []
+    ps = []
+    # 1. random admissible schedules on a configuration grid, inside the bound (also just inside it)
+    grid = []
+    for KC, KS in ((1536, 1536), (3000, 765), (15, 7680), (7680, 1530)):
+        for tau in (300, 1500):
+            for d in (0, 600, 4500):
+                M = max(KC, KS, idlesim.SI)
+                grid.append((KC, KS, tau, d, M + tau + d + 15))            # the tightest T on the 15-tick grid
+                grid.append((KC, KS, tau, d, 5 * T))
+    grid = [g for g in grid if idlesim.params_ok(*g, life=g[3] + 3 * T)]
+    grid = grid * 4 if th else rng.sample(grid, 6)
+    for n, (KC, KS, tau, d, Tc) in enumerate(grid):
+        life = d + (0 if n % 2 else 3 * T)          # copies also long after the first one
+        p = idlesim.random_session(run, rng, KC, KS, tau, d, Tc, 700 if th else 160, regular=(n % 3 == 0),
+                                   loss=(0.1 if n % 7 == 6 else 0.0), life=life, dup=0.3)
+        try:
+            okp, adm = idle_pair_compare(run, p, tau, d, life, "pair%d" % n, cases, impl, margs)
+            if okp and adm:
+                idle_pair_oracle(run, p, tau, d, "pair%d" % n)
+                run.nt(("idle_pair", KC, KS, tau, d, Tc))
+            run.count("idle_pair_sessions")
+            run.count("idle_pair_admissible" if adm else "idle_pair_inadmissible")
+            run.evaluations += len(p.events)
+            diffs = p.net.check_models()
+            if diffs:
+                run.oracle_violation("endpoint-model-differs", {"session": "pair%d" % n, "first": diffs[0]}, "conn_run")
+        finally:
+            p.close()
+        ps.append(p)
+    # 2. the exactness witnesses of Properties/C12.v on the real endpoints (15-tick grid)
+    t0 = T * 100
+
+    def rnd(t):
+        """one exchange at time t over a perfect network: every datagram emitted at t is shown to the peer at t"""
+        return [("s", t), ("c", t, "new"), ("r", t, "new")]
+
+    def rounds(n):
+        # the harness establishes the pair with both keep-alive timers overdue: both sides emit at the first round
+        return [e for i in range(n) for e in rnd(t0 + 1800 * (i + 1))]
+
+    t1 = t0 + 1800           # first exchange: the liveness clocks and keep-alive timers restart here
+    wit = [
+        # (label, KC, KS, T, script, expected final (client status, server status, removed), inside the bound?)
+        ("keepalive-below-timeout-server", 75000, 1536, 76800,
+         rounds(42) + rnd(t1 + 75000) + [("c", t1 + 76800), ("s", t1 + 76800)], (2, 2, True), False),
+        ("after-the-removal", 75000, 1536, 76800,
+         rounds(42) + rnd(t1 + 75000) + [("c", t1 + 76800), ("s", t1 + 76800)] + rnd(t1 + 78600) + rnd(t1 + 80400), (2, 2, True), None),
+        ("keepalive-below-timeout-client", 1536, 75015, 76800 + 15 * 1000,
+         rounds(42) + rnd(t1 + 75015) + [("s", t1 + 76815), ("c", t1 + 76815, "new")], (5, 2, False), False),
+        ("after-dropped", 1536, 75015, 76800 + 15 * 1000,
+         rounds(42) + rnd(t1 + 75015) + [("s", t1 + 76815), ("c", t1 + 76815, "new")] + rnd(t1 + 78615) + rnd(t1 + 80415), (5, 2, False), None),
+        ("just-inside-server", 74985, 1536, 76800,
+         rounds(42) + rnd(t1 + 74985) + [("c", t1 + 76785), ("s", t1 + 76785), ("r", t1 + 76785, "new"), ("c", t1 + 76785, "new")]
+         + rnd(t1 + 78585), (2, 2, False), True),
+        ("just-inside-client", 1536, 75000, 76800 + 15 * 1000,
+         rounds(42) + rnd(t1 + 75000) + [("s", t1 + 76800), ("c", t1 + 76800, "new"), ("r", t1 + 76800, "new")]
+         + rnd(t1 + 78600), (2, 2, False), True),
+    ]
+    for label, KC, KS, Tc, script, expect, inside in wit:
+        p = idlesim.scripted_session(run, rng, KC, KS, Tc, script)
+        try:
+            okp, adm = idle_pair_compare(run, p, 1800, 0, 0, label, cases, impl, margs)
+            final = p.statuses[-1]
+            if not adm and inside is not None:
+                run.oracle_violation("witness-schedule-not-admissible", {"session": label}, "harness/idlesim.py")
+            if inside is None:
+                pass        # what happens after a time-out: correspondence only (the schedule is no longer admissible)
+            elif inside:
+                if not okp:
+                    run.oracle_violation("witness-not-inside-bound", {"session": label}, "harness/idlesim.py")
+                idle_pair_oracle(run, p, 1800, 0, label)
+            elif final != (2, 2, False):
+                # keep-alive interval < time-out, perfect network, and yet the pair times out: the known limitation
+                run.oracle_violation("idle-pair-times-out-with-keepalive-below-timeout",
+                                     {"network": "perfect", "session": label, "KC": KC, "KS": KS, "tau": 1800, "d": 0, "T": Tc,
+                                      "final": list(final)}, "ConnectionBase.timedout / ClientServerConnection.update vs _build_packet")
+            if final != expect:
+                run.oracle_violation("witness-outcome-unexpected", {"session": label, "final": list(final), "expected": list(expect)},
+                                     "keepalive/timeout, two endpoints")
+            run.nt(("idle_witness", label))
+            run.count("idle_pair_witnesses")
+            run.evaluations += len(p.events)
+        finally:
+            p.close()
+    replies = run.model.call_many("idle_pair_run", margs)
+    mod = [[r[0], r[1], r[2], r[3]] for r in replies]
+    run.compare("idle_pair_run", cases, impl, mod)
+    if cases:
+        run.sample({"unit": "idle_pair_run", "case": cases[0], "last_observation": impl[0][3][-1]})
+
+
 def run(run):
     rng = run.rng
     th = run.thorough()
@@ -318,4 +458,6 @@ def run(run):
             for tau in ((300, 1500, 4500) if th else (300, 1500)):
                 run.evaluations += connect_timeout_case(run, rng, tt, with_cb, tau)
                 run.count("connect_timeout_cases")
+    # 6. the two endpoints together
+    check_idle_pairs(run, rng, th)
     run.rules.append(RULE)
